@@ -19,7 +19,8 @@ fn menu() -> Vec<Sig> {
         Sig::inp_z("B", 2),
         Sig::bidir("D", 4, V::Num(6)),
         Sig::out("Q", 1),
-        Sig::out("R", 2),
+        // an output whose name is the expected column of D with the suffix once more
+        Sig::out("D_out_out", 2),
         Sig::out("A_out", 4),
         // a one-bit input whose name differs from the bidirectional D only in case
         Sig::inp("d", 1, 1),
